@@ -141,13 +141,21 @@ func c11(run *ev.Run) {
 	mid := append(rootRegister(w), lock(w, "c0", "m0", 50), lock(w, "c1", "m0", 100), lock(w, "c0", "s0", 10), payFees(w, 0, "m0", 0, "c2", 7))
 	run.Rule = "BFS over all sequences up to the depth bound of stake lock / unlock / collect_reward / fee payment transactions of 4 clients on a registered miner and sharder (amounts around min_stake 10 and max_stake 100, delegate limit 2, owner / stranger / delegate wallet / repeated unlock), one real Chain.UpdateState per transition; oracle: reference ledger per (provider, delegate) and per account, written from the statement"
 	core := []chainsim.Action{lock(w, "c0", "m0", 10), lock(w, "c0", "m0", 50), lock(w, "c0", "m0", 51), lock(w, "c1", "m0", 100), lock(w, "c2", "m0", 10), lock(w, "c0", "s0", 10),
-		unlock(w, "c0", "m0"), unlock(w, "c1", "m0"), unlock(w, "c2", "m0"), collect(w, "c0", "m0"), collect(w, "c3", "m0"), payFees(w, 0, "m0", 0, "c2", 7)}
+		unlock(w, "c0", "m0"), unlock(w, "c1", "m0"), unlock(w, "c2", "m0"), collect(w, "c0", "m0"), payFees(w, 0, "m0", 0, "c2", 7)}
 	storageActors(w)
 	sroot := []chainsim.Action{addBlobber(w, "b0", "c3", 2), addValidator(w, "v0", "c3"), sLock(w, "c0", "b0", 5e8)}
 	sacts := []chainsim.Action{sLock(w, "c0", "b0", 99999999), sLock(w, "c0", "b0", 1e8), sLock(w, "c0", "b0", 5e8), sLock(w, "c0", "b0", 6e8),
 		sLock(w, "c1", "b0", 1e9), sLock(w, "c2", "b0", 1e8), sLock(w, "c0", "v0", 1e8), sLock(w, "c0", "b1", 1e8),
 		sUnlock(w, "c0", "b0"), sUnlock(w, "c1", "b0"), sUnlock(w, "c2", "b0"), sUnlock(w, "c0", "v0"), sCollect(w, "c0", "b0"), sCollect(w, "c3", "b0")}
+	// wall-clock probe: the same lock / unlock pair, but with chain time ~95 years ahead of the wall
+	// clock. StakePoolUnlock compares stake time + min lock period with time.Now(), so here the
+	// owner's unlock is refused; the monitor only records it (the statement has no lock period).
+	jump := payFees(w, 0, "m0", 0, "c2")
+	jump.Name, jump.Dt = "jump-95-years:"+jump.Name, 3000000000
+	future := append(rootRegister(w), jump, lock(w, "c0", "m0", 50))
 	explorePhases(run, w, []phase{
+		{"chain-time-ahead-of-wall-clock", []chainsim.Action{unlock(w, "c0", "m0"), unlock(w, "c1", "m0"), lock(w, "c0", "m0", 10), collect(w, "c0", "m0"), payFees(w, 0, "m0", 0, "c2", 7)},
+			[][]chainsim.Action{future}, 2, secs(run, 10, 20)},
 		{"storage", sacts, [][]chainsim.Action{sroot}, run.Pick(3, 4), secs(run, 30, 200)},
 		{"fresh-core", core, [][]chainsim.Action{rootRegister(w)}, run.Pick(4, 5), secs(run, 40, 400)},
 		{"fresh-full", acts, [][]chainsim.Action{rootRegister(w)}, run.Pick(2, 4), secs(run, 20, 200)},
